@@ -720,7 +720,24 @@ impl ScriptEngine {
                             match (oa, ob) {
                                 (Ok(a), Ok(b)) => match diff(&b, &a) {
                                     Some(d) => (Some(Self::fail("script.prefix_not_applied", k, format!("command {k} is malformed ({why}); after the Err the graph differs from the first {k} commands applied directly: direct vs script: {d}"))), "class.malformed"),
-                                    None => (None, "class.malformed"),
+                                    None => {
+                                        // a malformed command yields Err whichever deployment of the Script object meets it:
+                                        // the same object once more, onto a fresh copy of the prefix graph
+                                        let mut again = None;
+                                        let mut sc = sodg::Script::from_str(text);
+                                        for round in 0..2 {
+                                            let mut pre = Runner::new(cfg);
+                                            for c in prefix {
+                                                pre.step(c);
+                                            }
+                                            let mut g = pre.g;
+                                            if let Ok(Ok(n)) = catch_unwind(AssertUnwindSafe(|| g.deploy_obj(&mut sc))) {
+                                                again = Some(Self::fail("script.accepts_malformed", k, format!("command {k} is malformed ({why}); deployment no. {} of one and the same Script object returned Ok({n})", round + 1)));
+                                                break;
+                                            }
+                                        }
+                                        (again, "class.malformed")
+                                    }
                                 },
                                 _ => (None, "class.closed"),
                             }
